@@ -9,6 +9,7 @@ CALL_SKIP = {'fastcc', 'ccc', 'coldcc', 'noundef', 'zeroext', 'signext', 'noalia
 ARG_ATTRS = PARAM_ATTRS | {'align', 'dereferenceable', 'dereferenceable_or_null', 'byval', 'sret', 'inalloca', 'preallocated', 'elementtype'}
 BINOPS = {'add', 'sub', 'mul', 'udiv', 'sdiv', 'urem', 'srem', 'and', 'or', 'xor', 'shl', 'lshr', 'ashr'}
 FBINOPS = {'fadd', 'fsub', 'fmul', 'fdiv', 'frem'}
+PTR_PRED = {'ult': 'slt', 'ule': 'sle', 'ugt': 'sgt', 'uge': 'sge'}
 CASTS = {'trunc', 'zext', 'sext', 'bitcast', 'ptrtoint', 'inttoptr', 'fptrunc', 'fpext', 'fptoui', 'fptosi', 'uitofp', 'sitofp', 'addrspacecast'}
 
 
@@ -238,7 +239,7 @@ def decode_inst(E, m, fc, toks, bi, slot, operand, lidx, mk_jump, zero_of):
             if ptr.__class__ is not Ptr: ptr = E.int_to_ptr(st, ptr)
             # fast path: concrete in-bounds offset
             o = st.mem.get(ptr.obj); off = ptr.off
-            if o is not None and type(off) is int and 0 <= off and off + n <= o.size and o.kind not in ('freed', 'func'):
+            if o is not None and type(off) is int and 0 <= off and off + n <= o.size and o.kind not in ('freed', 'func') and o.arr is None:
                 cells = o.data[off:off + n]
                 v = 0; i = 0
                 for c in cells:
@@ -436,10 +437,12 @@ def decode_inst(E, m, fc, toks, bi, slot, operand, lidx, mk_jump, zero_of):
             if a.__class__ is Ptr or b.__class__ is Ptr:
                 if a.__class__ is Ptr and b.__class__ is Ptr:
                     if a.obj == b.obj:
+                        # same object: addresses are base+offset with a base far from 0 and 2^64, so the (unsigned) address
+                        # order is the SIGNED order of the offsets (an offset may be slightly negative, e.g. `limit - 7`)
                         ao, bo = a.off, b.off
                         if type(ao) is int: ao &= M64
                         if type(bo) is int: bo &= M64
-                        R[d] = icmp(pred, ao, bo, 64); return
+                        R[d] = icmp(PTR_PRED.get(pred, pred), ao, bo, 64); return
                     if pred == 'eq': R[d] = 0; return
                     if pred == 'ne': R[d] = 1; return
                 if a.__class__ is Ptr: a = E.ptr_addr(a)
